@@ -154,6 +154,18 @@ Proof.
     split; apply filter_In; split; assumption.
   - apply (acyclic_sub g); [|exact Ha]. simpl. intros e H. apply filter_In in H. tauto.
 Qed.
+Lemma good_remove_edge g u v : good_g g -> good_g (g_remove_edge g u v).
+Proof.
+  intros [[Hn He] Ha]. split; [split|].
+  - exact Hn.
+  - simpl. intros a b H. apply filter_In in H. apply He. tauto.
+  - apply (acyclic_sub g); [|exact Ha]. simpl. intros e H. apply filter_In in H. tauto.
+Qed.
+Lemma bn_remove_edges_g_good es strict : forall g, good_g g -> good_g (fst (bn_remove_edges_g g es strict)).
+Proof.
+  induction es as [|[u v] r IH]; intros g H; simpl; [exact H|].
+  destruct (has_edge g u v); [apply IH, good_remove_edge, H|]. destruct strict; [exact H|apply IH, H].
+Qed.
 Lemma good_remove_in_edges g x : good_g g -> good_g (g_remove_in_edges g x).
 Proof.
   intros [[Hn He] Ha]. split; [split|].
